@@ -146,6 +146,17 @@ func (g *fleetGen) mkNode(role, kind string, mapFrom *engine.Node) *fgNode {
 			spec.Map, spec.ByGam = mappingKinds[g.r.Intn(3)], false
 			spec.Alpha = engine.F64(g.r.LogUniform(1e-7, 4e-7))
 		}
+		if g.prof.prop == "C13" && g.r.Pct(8) {
+			// an index offset close to the int32 extremes: the 32-bit bound on the index, not the float
+			// range, then limits the indexable values
+			if m0, err := buildMapping(&spec); err == nil {
+				spec.ByGam, spec.Gamma = true, engine.F64(m0.ToProto().Gamma)
+				spec.Offset = engine.F64(float64(math.MaxInt32 - g.r.Range(0, 20000)))
+				if g.r.Pct(40) {
+					spec.Offset = -spec.Offset
+				}
+			}
+		}
 		if g.prof.prop == "C19" && !spec.ByGam && g.r.Pct(10) {
 			// the fine end of the accuracy range: neighbouring bases 1+2*alpha differ by little
 			spec.Alpha = engine.F64(g.r.LogUniform(1e-6, 1e-5))
@@ -354,6 +365,9 @@ func (g *fleetGen) weight() float64 {
 	r := g.r
 	switch g.regime {
 	case "arb": // arbitrary non-negative float64 weights (C09)
+		if r.Pct(8) { // next to 1 without being 1 (unit weights have a representation of their own in some stores)
+			return []float64{nudge(1, 1), nudge(1, -1), nudge(1, 3), 0.1 + 0.2 + 0.3 + 0.4, 1 + 1e-13, 1 - 1e-13}[r.Intn(6)]
+		}
 		switch r.Pick(5, 3, 2) {
 		case 0:
 			return r.Float64() * 100
